@@ -29,6 +29,21 @@ macro_rules! hf {
     };
 }
 
+/// like `h!` with the two byte-shuffle intrinsics replaced by Rust models
+/// (Kani cannot translate pshufb); for harnesses running Ssse3/Avx2 code.
+#[macro_export]
+macro_rules! hx {
+    ($name:ident, $unw:expr, $body:expr) => {
+        #[cfg_attr(kani, kani::proof)]
+        #[cfg_attr(kani, kani::unwind($unw))]
+        #[cfg_attr(kani, kani::stub(std::arch::x86_64::_mm_shuffle_epi8, crate::c15::shuf::mm_shuffle_epi8))]
+        #[cfg_attr(kani, kani::stub(std::arch::x86_64::_mm256_shuffle_epi8, crate::c15::shuf::mm256_shuffle_epi8))]
+        pub fn $name() {
+            $body
+        }
+    };
+}
+
 pub mod k;
 pub mod codec;
 pub mod gen;
@@ -36,6 +51,8 @@ pub mod model;
 pub mod stubs;
 pub mod c01;
 pub mod c02;
+pub mod c04;
+pub mod c05;
 pub mod c06;
 pub mod c07;
 pub mod c08;
@@ -43,6 +60,7 @@ pub mod c09;
 pub mod c10;
 pub mod c11;
 pub mod c12;
+pub mod c14;
 pub mod c15;
 pub mod c17;
 pub mod scratch;
